@@ -11,7 +11,7 @@ from ..grammar import regex_star_height, regex_ambiguous_repeats, regex_first_la
 from ..pyfacts import dotted, calls_in, guards_at, walk_guarded, terminates
 
 META = {
-    "explanation": "Exception-escape analysis of the part of the load path that is not inside lark: (X1) every partial operation (constant subscript / pop(i) / assert / explicit raise) in every function reachable from utils.open/load/loads through resolved calls (not through lark's dispatch to transformer callbacks) is dominated by a guard, indexes a local work list whose length has a proven lower bound at that statement (forward length analysis over the structured AST, loops at fixpoint - sa/lenfacts.py), is one of the recognised total idioms (str.split(sep)[0], pop of a key ranging over a snapshot of the dictionary's own keys, an assert that only reads parameters every load-path call leaves at defaults for which it holds), raises a Lark error, or is in the confirmed table; (X2) PAI evaluates Parser.parse's interactive token loop for every combination of (empty stack | previous token kind and text class) x (current token kind and text class) and the INCLUDE-line helper (found by role) on every INCLUDE-line shape: only Lark-family exceptions may come out; (X3) the three transformer classes derive from lark's Transformer classes and do not override the machinery that wraps callback exceptions in VisitError; (X4) the parse-error handler re-raises the same exception (line/column survive); (G8) every block type is accepted at the root by the LALR automaton; (G7) every terminal regex has star height <= 1 and no unbounded repeat over overlapping alternatives (linear-time matching).",
+    "explanation": "Exception-escape analysis of the part of the load path that is not inside lark: (X1) every partial operation (constant subscript / pop(i) / assert / explicit raise) in every function reachable from utils.open/load/loads through resolved calls (not through lark's dispatch to transformer callbacks) is dominated by a guard, indexes a local work list whose length has a proven lower bound at that statement (forward length analysis over the structured AST, loops at fixpoint - sa/lenfacts.py), is one of the recognised total idioms (str.split(sep)[0], pop of a key ranging over a snapshot of the dictionary's own keys, an assert that only reads parameters every load-path call leaves at defaults for which it holds), raises a Lark error, or is in the confirmed table; (X6) every while loop on the load path makes progress on every path back to its head (something its test reads may have changed); (X2) PAI evaluates Parser.parse's interactive token loop for every combination of (empty stack | previous token kind and text class) x (current token kind and text class) and the INCLUDE-line helper (found by role) on every INCLUDE-line shape: only Lark-family exceptions may come out; (X3) the three transformer classes derive from lark's Transformer classes and do not override the machinery that wraps callback exceptions in VisitError; (X4) the parse-error handler re-raises the same exception (line/column survive); (G8) every block type is accepted at the root by the LALR automaton; (G7) every terminal regex has star height <= 1 and no unbounded repeat over overlapping alternatives (linear-time matching).",
     "level_text": "All code between the public entry points and lark is small enough for an exact escape analysis; what runs inside lark's transformer is covered by lark's documented wrapping (VisitError is a LarkError). 'Promptly' is decided only as the necessary condition that no lexer regex can backtrack super-linearly; wall-clock proportionality is not decided.",
     "level_note": "Trusted: lark wraps every exception of a transformer callback except GrammarError/Discard in VisitError; lark's LALR loop is linear; RecursionError for nesting beyond the property's bound is out of scope.",
     "technique": "exception-escape rule over guard (dominance) facts + abstract interpretation of the token loop + regex syntax-tree analysis + LALR root-derivability query",
@@ -95,6 +95,24 @@ def run(ctx: Ctx) -> None:
                     ctx.ok("X1", f"{q} | raise {name}", repo.loc(mod, n), "tabled: " + RAISE_TABLE[(q, name)], nontrivial=False)
                 else:
                     ctx.finding("X1", f"{q} | raise {name}", repo.loc(mod, n), f"raises {name}, which is not a Lark error and not one of the errors C15/C20 prescribe")
+
+    # ---- X6 --------------------------------------------------------------------------------------
+    ctx.rule("X6", "every `while` loop on the load path (functions reached from open / load / loads, and the transformer callbacks lark dispatches to) makes progress on every path back to its head: something its test reads may have changed (sa/termination.py; while True and tests deciding through a free function are not judged)", 0)
+    from .. import termination
+
+    ctx.units["termination_self_check_cases"] = termination.self_check()
+    n_loops = 0
+    for q in sorted(set(direct) | {q_ for q_, _ in repo.all_functions() if q_.startswith("transformer.")}):
+        f_ = repo.func(q)
+        loops_ = [n for n in ast.walk(f_) if isinstance(n, ast.While)]
+        n_loops += len(loops_)
+        stuck = termination.stuck_paths(f_)
+        for loop_, node_, desc in stuck:
+            ctx.finding("X6", f"{q} | while {norm(loop_.test)[:50]}", repo.loc(q.split(".")[0], node_), f"{desc}: once taken, this path is taken forever - loads() does not return")
+        for loop_ in loops_:
+            if not any(l is loop_ for l, _, _ in stuck):
+                ctx.ok("X6", f"{q} | while {norm(loop_.test)[:50]}", repo.loc(q.split(".")[0], loop_), "every back path may change what the test reads (or the loop is not judged)")
+    ctx.units["while_loops_on_load_path"] = n_loops
 
     # ---- X5 --------------------------------------------------------------------------------------
     ctx.rule("X5", "the token loop does a bounded amount of work per token: inside the loop over iter_parse() no method of the interactive parser is called (copy / accepts / choices / feed_token walk or duplicate the whole parser stack, which makes loads quadratic), directly or through a helper the parser object is handed to", 1)
